@@ -36,7 +36,7 @@ structure Unit (ν : Type) where
   difference : ν
   pq : PhysQ
   system : Option System
-deriving Repr, Inhabited
+deriving Repr, Inhabited, DecidableEq
 
 /-- `Unit::all_keys`: names, then symbols, then aliases -/
 def Unit.allKeys {ν} (u : Unit ν) : List UStr := u.names ++ u.symbols ++ u.aliases
